@@ -884,6 +884,90 @@ pub fn exp_c11(e: &mut Exp) {
         td_weighted(e, "K2", K2::new(delta), delta, bl, lens);
         td_weighted(e, "K3", K3::new(delta), delta, bl, lens);
     }
+    // --- clone_from from a small configuration into a large instance: afterwards the instance holds
+    //     what its (new) configuration documents, not what it used to hold ---------------------------
+    {
+        use pdatastructs::topk::cmsheap::CMSHeap;
+        use pdatastructs::topk::lossycounter::LossyCounter;
+        let base = crate::alloc::live();
+        let mut big = HyperLogLog::<u64, BuildHasherSeeded>::with_hash(18, BuildHasherSeeded::new(1));
+        let small = HyperLogLog::<u64, BuildHasherSeeded>::with_hash(4, BuildHasherSeeded::new(2));
+        big.add(&1);
+        big.clone_from(&small);
+        drop(small);
+        check_mem(e, "clone_from hll b=4 into b=18", crate::alloc::live() - base, 16, 256);
+        drop(big);
+        let base = crate::alloc::live();
+        let mut big = BloomFilter::<u64, BuildHasherSeeded>::with_params_and_hash(1 << 20, 3, BuildHasherSeeded::new(1));
+        let small = BloomFilter::<u64, BuildHasherSeeded>::with_params_and_hash(64, 3, BuildHasherSeeded::new(2));
+        big.insert(&1).unwrap();
+        big.clone_from(&small);
+        drop(small);
+        check_mem(e, "clone_from bloom m=64 into m=2^20", crate::alloc::live() - base, 8 + 24, 256);
+        drop(big);
+        let base = crate::alloc::live();
+        let mut big = CountMinSketch::<u64, u64, BuildHasherSeeded>::with_params_and_hasher(4096, 8, BuildHasherSeeded::new(1));
+        let small = CountMinSketch::<u64, u64, BuildHasherSeeded>::with_params_and_hasher(4, 2, BuildHasherSeeded::new(2));
+        big.add(&1);
+        big.clone_from(&small);
+        drop(small);
+        check_mem(e, "clone_from cms 4x2 into 4096x8", crate::alloc::live() - base, 4 * 2 * 8 + 16, 256);
+        drop(big);
+        let base = crate::alloc::live();
+        let mut big = CuckooFilter::<u64, ScriptRng, BuildHasherSeeded>::with_params_and_hash(ScriptRng::new(1), 4, 1 << 14, 16, BuildHasherSeeded::new(1));
+        let small = CuckooFilter::<u64, ScriptRng, BuildHasherSeeded>::with_params_and_hash(ScriptRng::new(1), 2, 4, 8, BuildHasherSeeded::new(2));
+        big.insert(&1).unwrap();
+        big.clone_from(&small);
+        drop(small);
+        check_mem(e, "clone_from cuckoo 2x4x8 into 4x2^14x16", crate::alloc::live() - base, 16, 256);
+        drop(big);
+        let base = crate::alloc::live();
+        let mut big = QuotientFilter::<u64, BuildHasherSeeded>::with_params_and_hash(14, 20, BuildHasherSeeded::new(1));
+        let small = QuotientFilter::<u64, BuildHasherSeeded>::with_params_and_hash(3, 4, BuildHasherSeeded::new(2));
+        big.insert(&1).unwrap();
+        big.clone_from(&small);
+        drop(small);
+        check_mem(e, "clone_from quotient q=3 into q=14", crate::alloc::live() - base, 64, 256);
+        drop(big);
+        let base = crate::alloc::live();
+        let mut big = TDigest::new(K1::new(1000.0), 1000);
+        let small = TDigest::new(K1::new(10.0), 0);
+        for i in 0..5000 {
+            big.insert(i as f64);
+        }
+        big.clone_from(&small);
+        drop(small);
+        check_mem(e, "clone_from tdigest delta=10 into a loaded delta=1000", crate::alloc::live() - base, 16 * 14 * 2, 512);
+        drop(big);
+        let base = crate::alloc::live();
+        let mut big = ReservoirSampling::<u64, ScriptRng>::new(1 << 16, ScriptRng::new(1));
+        let small = ReservoirSampling::<u64, ScriptRng>::new(4, ScriptRng::new(1));
+        big.extend(0..100_000u64);
+        big.clone_from(&small);
+        drop(small);
+        check_mem(e, "clone_from reservoir k=4 into a loaded k=2^16", crate::alloc::live() - base, 4 * 8, 256);
+        drop(big);
+        let base = crate::alloc::live();
+        let mut big = LossyCounter::<u64>::with_width(10_000);
+        let small = LossyCounter::<u64>::with_width(2);
+        for i in 0..9_000u64 {
+            big.add(i);
+        }
+        big.clone_from(&small);
+        drop(small);
+        check_mem(e, "clone_from lossy width=2 into a loaded width=10000", crate::alloc::live() - base, 64, 512);
+        drop(big);
+        let base = crate::alloc::live();
+        let mut big = CMSHeap::<u64>::new(1000, CountMinSketch::with_params(1000, 5));
+        let small = CMSHeap::<u64>::new(1, CountMinSketch::with_params(2, 1));
+        for i in 0..3_000u64 {
+            big.add(i);
+        }
+        big.clone_from(&small);
+        drop(small);
+        check_mem(e, "clone_from cmsheap k=1 into a loaded k=1000", crate::alloc::live() - base, 2 * 8 + 96 + 64, 512);
+        drop(big);
+    }
     // --- cms heap: k items (+ the sketch) ------------------------------------------------------
     for &k in &[1usize, 10, 1000] {
         use pdatastructs::topk::cmsheap::CMSHeap;
@@ -967,6 +1051,18 @@ pub fn exp_glue(e: &mut Exp, prop: &str) {
                     }
                 }
                 c.extend(keys.iter().cloned());
+                // Extend through iterators with inexact size hints, in chunks of odd lengths
+                let mut c3 = BloomFilter::<u64>::with_params(m, k);
+                let mut c4 = BloomFilter::<u64>::with_params(m, k);
+                for chunk in keys.chunks(7) {
+                    c3.extend(chunk.iter().cloned().filter(|x| x % 3 != 0));
+                    for x in chunk.iter().filter(|x| *x % 3 != 0) {
+                        c4.insert(x).unwrap();
+                    }
+                }
+                if c3.len() != c4.len() || probes.iter().any(|y| c3.query(y) != c4.query(y)) {
+                    e.fails.push(format!("bloom m={} k={}: Extend through a filtering iterator differs from repeated insert", m, k));
+                }
                 for y in &probes {
                     if a.query(y) != b.query(y) || a.query(y) != c.query(y) {
                         e.fails.push(format!("bloom m={} k={}: convenience constructor / Extend disagree with the generic path on query({})", m, k, y));
@@ -1018,6 +1114,17 @@ pub fn exp_glue(e: &mut Exp, prop: &str) {
                     c2.add(x);
                 }
                 c.extend(keys.iter().cloned());
+                let mut c3 = CountMinSketch::<u64>::with_params(w, d);
+                let mut c4 = CountMinSketch::<u64>::with_params(w, d);
+                for chunk in keys.chunks(5) {
+                    c3.extend(chunk.iter().cloned().filter(|x| x % 3 != 0));
+                    for x in chunk.iter().filter(|x| *x % 3 != 0) {
+                        c4.add(x);
+                    }
+                }
+                if probes.iter().any(|y| c3.query_point(y) != c4.query_point(y)) {
+                    e.fails.push(format!("cms w={} d={}: Extend through a filtering iterator differs from repeated add", w, d));
+                }
                 for y in &probes {
                     if a.query_point(y) != b.query_point(y) || c.query_point(y) != c2.query_point(y) {
                         e.fails.push(format!("cms w={} d={}: convenience constructor / Extend disagree with the generic path on query_point({})", w, d, y));
@@ -1046,6 +1153,21 @@ pub fn exp_glue(e: &mut Exp, prop: &str) {
                 if a.registers() != g.registers() || a.registers() != c.registers() || a.registers() != c2.registers() || a.count() != c.count() {
                     e.fails.push(format!("hll b={}: new / with_hash(default) / Extend give different registers", b));
                 }
+                // Extend (by value and by reference) through iterators whose size_hint lower bound is 0,
+                // in chunks of odd lengths; extend of very few elements
+                let mut c3 = HyperLogLog::<u64>::new(b);
+                let mut c4 = HyperLogLog::<u64>::new(b);
+                let mut c5 = HyperLogLog::<u64>::new(b);
+                for chunk in keys.chunks(*e.rng.pick(&[1usize, 2, 3, 7, 9])) {
+                    c3.extend(chunk.iter().cloned().filter(|x| x % 3 != 0));
+                    c4.extend(chunk.iter().filter(|x| *x % 3 != 0));
+                    for x in chunk.iter().filter(|x| *x % 3 != 0) {
+                        c5.add(x);
+                    }
+                }
+                if c3.registers() != c5.registers() || c4.registers() != c5.registers() || c3.count() != c5.count() || c3.is_empty() != c5.is_empty() {
+                    e.fails.push(format!("hll b={}: Extend through a filtering iterator differs from repeated add", b));
+                }
                 // add(x) is add_hashed(buildhasher.hash_one(x))
                 use std::hash::BuildHasher;
                 let mut h = HyperLogLog::<u64>::new(b);
@@ -1069,6 +1191,19 @@ pub fn exp_glue(e: &mut Exp, prop: &str) {
                 if a.reservoir() != b.reservoir() || a.i() != b.i() {
                     e.fails.push(format!("reservoir k={}: Extend differs from repeated add", k));
                 }
+                let mut c3 = ReservoirSampling::<u64, ScriptRng>::new(k, ScriptRng::new(seed));
+                let mut c4 = ReservoirSampling::<u64, ScriptRng>::new(k, ScriptRng::new(seed));
+                for round in 0..6u64 {
+                    for chunk in keys.chunks(9) {
+                        c3.extend(chunk.iter().map(|x| x + 1000 * round).filter(|x| x % 3 != 0));
+                        for x in chunk.iter().map(|x| x + 1000 * round).filter(|x| x % 3 != 0) {
+                            c4.add(x);
+                        }
+                    }
+                }
+                if c3.reservoir() != c4.reservoir() || c3.i() != c4.i() {
+                    e.fails.push(format!("reservoir k={}: Extend through a filtering iterator differs from repeated add (i = {} vs {})", k, c3.i(), c4.i()));
+                }
                 e.evals += 1;
             }
             "C10" => {
@@ -1082,6 +1217,20 @@ pub fn exp_glue(e: &mut Exp, prop: &str) {
                 b.extend(keys.iter().cloned());
                 if a.iter().collect::<Vec<_>>() != b.iter().collect::<Vec<_>>() {
                     e.fails.push(format!("cmsheap k={}: Extend differs from repeated add", k));
+                }
+                // runs of equal items, through a filtering iterator, in chunks
+                let mut c3 = CMSHeap::<u64>::new(k, CountMinSketch::with_params(50, 3));
+                let mut c4 = CMSHeap::<u64>::new(k, CountMinSketch::with_params(50, 3));
+                let runs: Vec<u64> = keys.iter().flat_map(|x| std::iter::repeat(*x % 9).take((*x % 4) as usize + 1)).collect();
+                for chunk in runs.chunks(11) {
+                    c3.extend(chunk.iter().cloned().filter(|x| x % 5 != 0));
+                    for x in chunk.iter().cloned().filter(|x| x % 5 != 0) {
+                        c4.add(x);
+                    }
+                    if c3.iter().collect::<Vec<_>>() != c4.iter().collect::<Vec<_>>() {
+                        e.fails.push(format!("cmsheap k={}: Extend with runs of equal items differs from repeated add", k));
+                        break;
+                    }
                 }
                 e.evals += 1;
             }
